@@ -1,8 +1,686 @@
 package main
 
-// table / layout / consts obligations: ground facts extracted from the typed
-// AST of the real files, goals discharged by the solver.
+// table / layout / consts obligations: ground facts are extracted from the
+// typed AST of the real files (constant folding by go/types), the UAPI oracle
+// is read from /verif/oracles/uapi_audit.spec, and every goal is discharged by
+// the solver over those facts.
+
+import (
+	"fmt"
+	"go/ast"
+	"go/constant"
+	"go/types"
+	"os"
+	"path/filepath"
+	"sort"
+	"strings"
+
+	"golang.org/x/tools/go/packages"
+	"gopkg.in/yaml.v3"
+)
+
+type tblEntry struct {
+	Key, Val interface{} // int64 | string | []tblEntry (nested map)
+}
+
+type oracle struct {
+	vals    map[string]map[string]int64 // section -> name -> value
+	layouts map[string][]layoutField
+	sizes   map[string]int64
+	src     map[string]string
+}
+
+type layoutField struct {
+	name string
+	off  int64
+	size int64
+}
+
+func loadOracle(verif string) (*oracle, error) {
+	data, err := os.ReadFile(filepath.Join(verif, "oracles", "uapi_audit.spec"))
+	if err != nil {
+		return nil, err
+	}
+	o := &oracle{vals: map[string]map[string]int64{}, layouts: map[string][]layoutField{}, sizes: map[string]int64{}, src: map[string]string{}}
+	section := ""
+	for _, line := range strings.Split(string(data), "\n") {
+		if i := strings.Index(line, "#"); i >= 0 {
+			line = line[:i]
+		}
+		f := strings.Fields(line)
+		if len(f) == 0 {
+			continue
+		}
+		switch f[0] {
+		case "section":
+			section = f[1]
+			if o.vals[section] == nil {
+				o.vals[section] = map[string]int64{}
+			}
+		case "struct":
+			// struct <name> size <n> : field@off:size ...
+			name := f[1]
+			var sz int64
+			fmt.Sscanf(f[3], "%d", &sz)
+			o.sizes[name] = sz
+			for _, fs := range f[4:] {
+				var lf layoutField
+				parts := strings.FieldsFunc(fs, func(r rune) bool { return r == '@' || r == ':' })
+				if len(parts) != 3 {
+					continue
+				}
+				lf.name = parts[0]
+				fmt.Sscanf(parts[1], "%d", &lf.off)
+				fmt.Sscanf(parts[2], "%d", &lf.size)
+				o.layouts[name] = append(o.layouts[name], lf)
+			}
+		default:
+			if len(f) >= 2 && section != "" {
+				var v int64
+				if _, err := fmt.Sscanf(f[1], "%v", &v); err != nil {
+					continue
+				}
+				o.vals[section][f[0]] = v
+			}
+		}
+	}
+	return o, nil
+}
+
+func (eng *Engine) findPkg(suffix string) *packages.Package {
+	path := eng.modulePath
+	if suffix != "" && suffix != "." {
+		path += "/" + suffix
+	}
+	var found *packages.Package
+	packages.Visit(eng.pkgs, nil, func(p *packages.Package) {
+		if p.PkgPath == path {
+			found = p
+		}
+	})
+	return found
+}
+
+// constOf evaluates a constant expression node.
+func constOf(info *types.Info, e ast.Expr) (interface{}, bool) {
+	tv, ok := info.Types[e]
+	if !ok || tv.Value == nil {
+		return nil, false
+	}
+	switch tv.Value.Kind() {
+	case constant.String:
+		return constant.StringVal(tv.Value), true
+	case constant.Int:
+		if v, ok := constant.Int64Val(tv.Value); ok {
+			return v, true
+		}
+		if v, ok := constant.Uint64Val(tv.Value); ok {
+			return int64(v), true
+		}
+	}
+	return nil, false
+}
+
+// tableLiteral extracts the entries of a package-level map literal "pkg.name".
+func (eng *Engine) tableLiteral(ref string) ([]tblEntry, error) {
+	i := strings.LastIndex(ref, ".")
+	if i < 0 {
+		return nil, fmt.Errorf("table reference %q needs pkg.name", ref)
+	}
+	pk := eng.findPkg(ref[:i])
+	if pk == nil {
+		return nil, fmt.Errorf("unknown package %q", ref[:i])
+	}
+	name := ref[i+1:]
+	for _, f := range pk.Syntax {
+		for _, d := range f.Decls {
+			gd, ok := d.(*ast.GenDecl)
+			if !ok {
+				continue
+			}
+			for _, sp := range gd.Specs {
+				vs, ok := sp.(*ast.ValueSpec)
+				if !ok {
+					continue
+				}
+				for k, n := range vs.Names {
+					if n.Name != name || k >= len(vs.Values) {
+						continue
+					}
+					cl, ok := vs.Values[k].(*ast.CompositeLit)
+					if !ok {
+						return nil, fmt.Errorf("%s is not initialised by a composite literal", ref)
+					}
+					return litEntries(pk.TypesInfo, cl)
+				}
+			}
+		}
+	}
+	return nil, fmt.Errorf("table %s not found", ref)
+}
+
+func litEntries(info *types.Info, cl *ast.CompositeLit) ([]tblEntry, error) {
+	var out []tblEntry
+	for _, el := range cl.Elts {
+		kv, ok := el.(*ast.KeyValueExpr)
+		if !ok {
+			return nil, fmt.Errorf("non key-value element in table literal")
+		}
+		k, ok := constOf(info, kv.Key)
+		if !ok {
+			return nil, fmt.Errorf("non-constant key in table literal")
+		}
+		if inner, ok := kv.Value.(*ast.CompositeLit); ok {
+			sub, err := litEntries(info, inner)
+			if err != nil {
+				return nil, err
+			}
+			out = append(out, tblEntry{k, sub})
+			continue
+		}
+		v, ok := constOf(info, kv.Value)
+		if !ok {
+			return nil, fmt.Errorf("non-constant value in table literal")
+		}
+		out = append(out, tblEntry{k, v})
+	}
+	return out, nil
+}
+
+// interning of strings so that the solver sees integers
+type interner struct {
+	ids  map[string]int64
+	strs []string
+}
+
+func (in *interner) id(v interface{}) string {
+	switch x := v.(type) {
+	case int64:
+		return num(x)
+	case string:
+		if id, ok := in.ids[x]; ok {
+			return num(id)
+		}
+		id := int64(1000000 + len(in.ids))
+		in.ids[x] = id
+		in.strs = append(in.strs, x)
+		return num(id)
+	}
+	return "0"
+}
+
+func groundQuery(facts []string, goal string) []string {
+	q := []string{"(set-logic ALL)"}
+	q = append(q, facts...)
+	q = append(q, "(assert (not "+goal+"))", "(check-sat)")
+	return q
+}
+
+// mapFacts declares a total function name : Int -> Int with a domain predicate
+// and asserts one fact per entry.
+func mapFacts(name string, entries []tblEntry, in *interner) []string {
+	out := []string{
+		"(declare-fun " + name + " (Int) Int)",
+		"(declare-fun " + name + "_in (Int) Bool)",
+	}
+	var keys []string
+	for _, e := range entries {
+		k := in.id(e.Key)
+		keys = append(keys, k)
+		out = append(out, "(assert (= ("+name+" "+k+") "+in.id(e.Val)+"))")
+	}
+	// domain: positive facts only (goals are ground; a key that is not listed is
+	// unconstrained, so a goal that needs it cannot be proved)
+	for _, k := range keys {
+		out = append(out, "(assert ("+name+"_in "+k+"))")
+	}
+	return out
+}
 
 func (eng *Engine) tableObligations(prop string, ps *PropSpec) ([]*Obligation, []string) {
-	return nil, nil
+	var obls []*Obligation
+	var notes []string
+	var orc *oracle
+	verif := eng.verifDir
+	add := func(ts *TableSpec, name, desc string, q []string) {
+		if len(ts.diag) > 0 {
+			desc += " -- entries that do not satisfy it (diagnostic, computed outside the solver): " + strings.Join(ts.diag, ", ")
+			ts.diag = nil
+		}
+		obls = append(obls, &Obligation{Name: "table/" + name, Kind: "table", Tags: ts.Tags, Pos: ts.Src, Desc: desc, Unit: ts.Head, Raw: q})
+	}
+	for _, ts := range eng.specs.Tables {
+		has := false
+		for _, t := range ts.Tags {
+			if t == prop {
+				has = true
+			}
+		}
+		if !has {
+			continue
+		}
+		if orc == nil {
+			o, err := loadOracle(verif)
+			if err != nil {
+				notes = append(notes, "oracle: "+err.Error())
+				return obls, notes
+			}
+			orc = o
+		}
+		f := strings.Fields(ts.Head)
+		fail := func(err error) { notes = append(notes, ts.Src+": "+ts.Kind+" "+ts.Head+": "+err.Error()) }
+		in := &interner{ids: map[string]int64{}}
+		switch ts.Kind {
+		case "consts":
+			// consts pkg NAME=ORACLE_SECTION.ORACLE_NAME ...
+			pk := eng.findPkg(f[0])
+			if pk == nil {
+				fail(fmt.Errorf("unknown package"))
+				continue
+			}
+			for _, item := range f[1:] {
+				parts := strings.SplitN(item, "=", 2)
+				if len(parts) != 2 {
+					fail(fmt.Errorf("bad item %q", item))
+					continue
+				}
+				obj := pk.Types.Scope().Lookup(parts[0])
+				c, ok := obj.(*types.Const)
+				if !ok {
+					fail(fmt.Errorf("no constant %s", parts[0]))
+					continue
+				}
+				goVal, ok := constant.Int64Val(constant.ToInt(c.Val()))
+				if !ok {
+					fail(fmt.Errorf("constant %s is not an integer", parts[0]))
+					continue
+				}
+				op := strings.SplitN(parts[1], ".", 2)
+				if len(op) != 2 {
+					fail(fmt.Errorf("oracle reference %q needs section.name", parts[1]))
+					continue
+				}
+				want, ok := orc.vals[op[0]][op[1]]
+				if !ok {
+					fail(fmt.Errorf("oracle has no %s", parts[1]))
+					continue
+				}
+				facts := []string{"(declare-fun go_value () Int)", "(declare-fun uapi_value () Int)",
+					fmt.Sprintf("(assert (= go_value %s))", num(goVal)), fmt.Sprintf("(assert (= uapi_value %s))", num(want))}
+				add(ts, "const/"+f[0]+"."+parts[0], fmt.Sprintf("constant %s equals UAPI %s (%d)", parts[0], parts[1], want), groundQuery(facts, "(= go_value uapi_value)"))
+			}
+		case "layout":
+			// layout pkg GoType oracle_struct
+			pk := eng.findPkg(f[0])
+			if pk == nil || len(f) < 3 {
+				fail(fmt.Errorf("layout pkg GoType oracle_struct"))
+				continue
+			}
+			var t types.Type
+			if strings.Contains(f[1], "/") || strings.HasPrefix(f[1], "syscall.") {
+				ip := eng.prog.ImportedPackage(f[1][:strings.LastIndex(f[1], ".")])
+				if ip == nil {
+					fail(fmt.Errorf("unknown package for %s", f[1]))
+					continue
+				}
+				t = ip.Pkg.Scope().Lookup(f[1][strings.LastIndex(f[1], ".")+1:]).Type()
+			} else {
+				o := pk.Types.Scope().Lookup(f[1])
+				if o == nil {
+					fail(fmt.Errorf("no type %s", f[1]))
+					continue
+				}
+				t = o.Type()
+			}
+			st, ok := t.Underlying().(*types.Struct)
+			if !ok {
+				fail(fmt.Errorf("%s is not a struct", f[1]))
+				continue
+			}
+			want, ok := orc.layouts[f[2]]
+			if !ok {
+				fail(fmt.Errorf("oracle has no struct %s", f[2]))
+				continue
+			}
+			var fields []*types.Var
+			for i := 0; i < st.NumFields(); i++ {
+				fields = append(fields, st.Field(i))
+			}
+			offs := sizes.Offsetsof(fields)
+			facts := []string{"(declare-fun go_off (Int) Int)", "(declare-fun go_size (Int) Int)", "(declare-fun c_off (Int) Int)", "(declare-fun c_size (Int) Int)",
+				"(declare-fun go_n () Int)", "(declare-fun c_n () Int)", "(declare-fun go_total () Int)", "(declare-fun c_total () Int)"}
+			facts = append(facts, fmt.Sprintf("(assert (= go_n %d))", len(fields)), fmt.Sprintf("(assert (= c_n %d))", len(want)),
+				fmt.Sprintf("(assert (= go_total %d))", sizes.Sizeof(t)), fmt.Sprintf("(assert (= c_total %d))", orc.sizes[f[2]]))
+			var goals []string
+			goals = append(goals, "(= go_n c_n)", "(= go_total c_total)")
+			for i := range fields {
+				facts = append(facts, fmt.Sprintf("(assert (= (go_off %d) %d))", i, offs[i]), fmt.Sprintf("(assert (= (go_size %d) %d))", i, sizes.Sizeof(fields[i].Type())))
+				if i < len(want) {
+					facts = append(facts, fmt.Sprintf("(assert (= (c_off %d) %d))", i, want[i].off), fmt.Sprintf("(assert (= (c_size %d) %d))", i, want[i].size))
+					goals = append(goals, fmt.Sprintf("(= (go_off %d) (c_off %d))", i, i), fmt.Sprintf("(= (go_size %d) (c_size %d))", i, i))
+				}
+			}
+			add(ts, "layout/"+f[1], fmt.Sprintf("layout of %s equals struct %s of the UAPI oracle (offsets, sizes, order, total size)", f[1], f[2]),
+				groundQuery(facts, "(and "+strings.Join(goals, " ")+")"))
+		case "table":
+			eng.tableGoal(ts, f, in, orc, add, fail)
+		}
+	}
+	return obls, notes
+}
+
+func (eng *Engine) tableGoal(ts *TableSpec, f []string, in *interner, orc *oracle, add func(*TableSpec, string, string, []string), fail func(error)) {
+	if len(f) < 2 {
+		fail(fmt.Errorf("table <kind> <args>"))
+		return
+	}
+	switch f[0] {
+	case "inverse", "maps-back":
+		if len(f) < 3 {
+			fail(fmt.Errorf("needs two tables"))
+			return
+		}
+		a, err := eng.tableLiteral(f[1])
+		if err != nil {
+			fail(err)
+			return
+		}
+		b, err := eng.tableLiteral(f[2])
+		if err != nil {
+			fail(err)
+			return
+		}
+		facts := append(mapFacts("A", a, in), mapFacts("B", b, in)...)
+		var gs []string
+		var bad []string
+		bm := map[interface{}]interface{}{}
+		am := map[interface{}]interface{}{}
+		for _, e := range b {
+			bm[e.Key] = e.Val
+		}
+		for _, e := range a {
+			am[e.Key] = e.Val
+		}
+		for _, e := range a {
+			k, v := in.id(e.Key), in.id(e.Val)
+			gs = append(gs, fmt.Sprintf("(and (B_in %s) (= (B %s) %s))", v, v, k))
+			if bm[e.Val] != e.Key {
+				bad = append(bad, fmt.Sprint(e.Key, "->", e.Val))
+			}
+		}
+		for _, e := range b {
+			k, v := in.id(e.Key), in.id(e.Val)
+			if f[0] == "inverse" {
+				gs = append(gs, fmt.Sprintf("(and (A_in %s) (= (A %s) %s))", v, v, k))
+				if am[e.Val] != e.Key {
+					bad = append(bad, fmt.Sprint(e.Key, "->", e.Val))
+				}
+			} else {
+				// every name of B maps to a number that has a name (aliases resolve to that number)
+				gs = append(gs, fmt.Sprintf("(A_in %s)", v))
+				if _, ok := am[e.Val]; !ok {
+					bad = append(bad, fmt.Sprint(e.Key, "->", e.Val))
+				}
+			}
+		}
+		goal := "(and " + strings.Join(gs, " ") + " true)"
+		ts.diag = bad
+		add(ts, f[0]+"/"+f[1], fmt.Sprintf("%s and %s are %s (%d / %d entries)", f[1], f[2], f[0], len(a), len(b)), groundQuery(facts, goal))
+	case "injective":
+		a, err := eng.tableLiteral(f[1])
+		if err != nil {
+			fail(err)
+			return
+		}
+		facts := mapFacts("A", a, in)
+		add(ts, "injective/"+f[1], fmt.Sprintf("%s maps distinct keys to distinct values (%d entries)", f[1], len(a)),
+			groundQuery(facts, distinctGoal("A", a, in)))
+	case "injective-nested":
+		a, err := eng.tableLiteral(f[1])
+		if err != nil {
+			fail(err)
+			return
+		}
+		for _, e := range a {
+			sub, ok := e.Val.([]tblEntry)
+			if !ok {
+				fail(fmt.Errorf("not a nested table"))
+				return
+			}
+			facts := mapFacts("A", sub, in)
+			add(ts, fmt.Sprintf("injective/%s[%v]", f[1], e.Key), fmt.Sprintf("%s[%v]: a name maps to one number (%d entries)", f[1], e.Key, len(sub)),
+				groundQuery(facts, distinctGoal("A", sub, in)))
+		}
+	case "symmetric":
+		a, err := eng.tableLiteral(f[1])
+		if err != nil {
+			fail(err)
+			return
+		}
+		facts := []string{"(declare-fun A (Int Int) Int)", "(declare-fun A_in (Int Int) Bool)"}
+		var gs []string
+		for _, e := range a {
+			sub, _ := e.Val.([]tblEntry)
+			for _, s := range sub {
+				x, y := in.id(e.Key), in.id(s.Key)
+				facts = append(facts, fmt.Sprintf("(assert (= (A %s %s) %s))", x, y, in.id(s.Val)), fmt.Sprintf("(assert (A_in %s %s))", x, y))
+				gs = append(gs, fmt.Sprintf("(and (A_in %s %s) (= (A %s %s) (A %s %s)))", y, x, x, y, y, x))
+			}
+		}
+		add(ts, "symmetric/"+f[1], f[1]+" is symmetric: (a,b) and (b,a) are both present with the same code",
+			groundQuery(facts, "(and "+strings.Join(gs, " ")+" true)"))
+	case "names-canonical":
+		// every value is its own upper-case form and contains no '['
+		a, err := eng.tableLiteral(f[1])
+		if err != nil {
+			fail(err)
+			return
+		}
+		facts := []string{"(declare-fun lower_or_bracket (Int) Bool)"}
+		var goals []string
+		for _, e := range a {
+			s, _ := e.Val.(string)
+			id := in.id(s)
+			bad := "false"
+			for i := 0; i < len(s); i++ {
+				if (s[i] >= 'a' && s[i] <= 'z') || s[i] == '[' || s[i] >= 128 {
+					bad = "true"
+				}
+			}
+			facts = append(facts, fmt.Sprintf("(assert (= (lower_or_bracket %s) %s))", id, bad))
+			goals = append(goals, fmt.Sprintf("(not (lower_or_bracket %s))", id))
+		}
+		add(ts, "names-canonical/"+f[1], fmt.Sprintf("every name in %s is upper-case ASCII without '[' (%d names)", f[1], len(a)),
+			groundQuery(facts, "(and "+strings.Join(goals, " ")+" true)"))
+	case "oracle":
+		// oracle <table> <section>: every key of the table is an oracle name of that section with the table's value
+		a, err := eng.tableLiteral(f[1])
+		if err != nil {
+			fail(err)
+			return
+		}
+		sec := orc.vals[f[2]]
+		if sec == nil {
+			fail(fmt.Errorf("oracle has no section %s", f[2]))
+			return
+		}
+		facts := mapFacts("A", a, in)
+		facts = append(facts, "(declare-fun U (Int) Int)", "(declare-fun U_in (Int) Bool)")
+		names := make([]string, 0, len(sec))
+		for n := range sec {
+			names = append(names, n)
+		}
+		sort.Strings(names)
+		for _, n := range names {
+			facts = append(facts, fmt.Sprintf("(assert (= (U %s) %s))", in.id(n), num(sec[n])), fmt.Sprintf("(assert (U_in %s))", in.id(n)))
+		}
+		var gs []string
+		var bad []string
+		for _, e := range a {
+			k := in.id(e.Key)
+			gs = append(gs, fmt.Sprintf("(and (U_in %s) (= (A %s) (U %s)))", k, k, k))
+			if ks, ok := e.Key.(string); ok {
+				if want, ok2 := sec[ks]; !ok2 || want != e.Val {
+					bad = append(bad, fmt.Sprint(e.Key, "=", e.Val))
+				}
+			}
+		}
+		ts.diag = bad
+		add(ts, "oracle/"+f[1], fmt.Sprintf("every entry of %s carries the UAPI number of its name (oracle section %s, %d entries)", f[1], f[2], len(a)),
+			groundQuery(facts, "(and "+strings.Join(gs, " ")+" true)"))
+	case "yaml-subset":
+		// yaml-subset <pkg-relative yaml file> <field> <table> [nested] [allow=*]
+		eng.yamlGoal(ts, f, in, add, fail)
+	default:
+		fail(fmt.Errorf("unknown table goal %s", f[0]))
+	}
+}
+
+type normDoc struct {
+	Normalizations []struct {
+		RecordTypes yamlStrings `yaml:"record_types"`
+		Syscalls    yamlStrings `yaml:"syscalls"`
+		HasFields   yamlStrings `yaml:"has_fields"`
+	} `yaml:"normalizations"`
+}
+
+type yamlStrings []string
+
+func (s *yamlStrings) UnmarshalYAML(n *yaml.Node) error {
+	var one string
+	if err := n.Decode(&one); err == nil {
+		*s = []string{one}
+		return nil
+	}
+	var many []string
+	if err := n.Decode(&many); err != nil {
+		return err
+	}
+	*s = many
+	return nil
+}
+
+func (eng *Engine) yamlGoal(ts *TableSpec, f []string, in *interner, add func(*TableSpec, string, string, []string), fail func(error)) {
+	if len(f) < 4 {
+		fail(fmt.Errorf("yaml-subset file field table"))
+		return
+	}
+	data, err := os.ReadFile(filepath.Join(eng.repoDir, f[1]))
+	if err != nil {
+		fail(err)
+		return
+	}
+	var doc normDoc
+	if err := yaml.Unmarshal(data, &doc); err != nil {
+		fail(err)
+		return
+	}
+	tbl, err := eng.tableLiteral(f[3])
+	if err != nil {
+		fail(err)
+		return
+	}
+	facts := []string{"(declare-fun known (Int) Bool)"}
+	knownSet := map[string]bool{}
+	var dom []string
+	var collect func(es []tblEntry, nested bool)
+	collect = func(es []tblEntry, nested bool) {
+		for _, e := range es {
+			if sub, ok := e.Val.([]tblEntry); ok {
+				for _, s := range sub {
+					if v, ok := s.Val.(string); ok {
+						dom = append(dom, in.id(v))
+						knownSet[v] = true
+					}
+				}
+				continue
+			}
+			if k, ok := e.Key.(string); ok {
+				dom = append(dom, in.id(k))
+				knownSet[k] = true
+			}
+		}
+	}
+	collect(tbl, false)
+	for _, a := range f[4:] {
+		if strings.HasPrefix(a, "allow=") {
+			dom = append(dom, in.id(strings.TrimPrefix(a, "allow=")))
+			knownSet[strings.TrimPrefix(a, "allow=")] = true
+		}
+	}
+	seenDom := map[string]bool{}
+	for _, d := range dom {
+		if !seenDom[d] {
+			seenDom[d] = true
+			facts = append(facts, "(assert (known "+d+"))")
+		}
+	}
+	var items []string
+	count := map[string]int{}
+	unq := map[string]int{}
+	for _, n := range doc.Normalizations {
+		var vals []string
+		switch f[2] {
+		case "record_types":
+			vals = n.RecordTypes
+			if len(n.HasFields) == 0 {
+				for _, v := range vals {
+					unq[v]++
+				}
+			}
+		case "syscalls":
+			vals = n.Syscalls
+		}
+		for _, v := range vals {
+			items = append(items, v)
+			count[v]++
+		}
+	}
+	var gs []string
+	var bad []string
+	seen := map[string]bool{}
+	for _, v := range items {
+		if !seen[v] {
+			seen[v] = true
+			gs = append(gs, "(known "+in.id(v)+")")
+			if !knownSet[v] {
+				bad = append(bad, v)
+			}
+		}
+	}
+	ts.diag = bad
+	add(ts, "yaml-subset/"+f[2], fmt.Sprintf("every %s entry of %s is a name of %s (%d distinct entries)", f[2], f[1], f[3], len(seen)),
+		groundQuery(facts, "(and "+strings.Join(gs, " ")+" true)"))
+	// uniqueness goals
+	facts2 := []string{"(declare-fun times (Int) Int)"}
+	var goals []string
+	keys := make([]string, 0, len(count))
+	for k := range count {
+		keys = append(keys, k)
+	}
+	sort.Strings(keys)
+	for _, k := range keys {
+		c := count[k]
+		if f[2] == "record_types" {
+			c = unq[k]
+		}
+		facts2 = append(facts2, fmt.Sprintf("(assert (= (times %s) %d))", in.id(k), c))
+		goals = append(goals, fmt.Sprintf("(<= (times %s) 1)", in.id(k)))
+	}
+	what := "no syscall is listed twice"
+	if f[2] == "record_types" {
+		what = "at most one unqualified (no has_fields) normalisation per record type"
+	}
+	add(ts, "yaml-unique/"+f[2], what+" in "+f[1], groundQuery(facts2, "(and "+strings.Join(goals, " ")+" true)"))
+}
+
+func distinctGoal(name string, entries []tblEntry, in *interner) string {
+	if len(entries) < 2 {
+		return "true"
+	}
+	var ts []string
+	for _, e := range entries {
+		ts = append(ts, "("+name+" "+in.id(e.Key)+")")
+	}
+	return "(distinct " + strings.Join(ts, " ") + ")"
 }
